@@ -13,8 +13,11 @@ package qinq
 import (
 	"fmt"
 	"math/rand"
+	"os"
 	"strconv"
 	"strings"
+	"sync"
+	"sync/atomic"
 
 	"bngverif/hx"
 
@@ -106,7 +109,22 @@ func (c cfg) randOp(r *rand.Rand, subs int) string {
 	}
 }
 
+// genStress emits the concurrency sequences (only when C20_STRESS is set; the check runs them on a -race build).
+func genStress(r *rand.Rand, tier string, emit func([]string)) {
+	n := 20
+	if tier == "thorough" {
+		n = 200
+	}
+	for i := 0; i < n; i++ {
+		emit([]string{"new 10 13 100-102", fmt.Sprintf("stress %d 8 200", r.Int63n(1<<31))})
+	}
+}
+
 func (comp) Gen(r *rand.Rand, tier string, emit func([]string)) {
+	if os.Getenv("C20_STRESS") != "" {
+		genStress(r, tier, emit)
+		return
+	}
 	n, nLong := 4000, 10
 	if tier == "thorough" {
 		n, nLong = 50000, 100
@@ -235,8 +253,66 @@ func (r *run) Do(op string) string {
 		return fmt.Sprintf("%d.%d", v.STag, v.CTag)
 	case "stats":
 		return strconv.Itoa(r.m.Stats().TotalMappings)
+	case "stress":
+		seed, _ := strconv.ParseInt(f[1], 10, 64)
+		g, _ := strconv.Atoi(f[2])
+		n, _ := strconv.Atoi(f[3])
+		return r.stress(seed, g, n)
 	}
 	return "badop"
+}
+
+// stress runs g goroutines of n random operations each on the shared mapper (subscribers s1…s10, pairs of the
+// 3 x 4 range 100-102 x 10-13) and then prints every lookup in both directions.  Schedule dependent: judged by the
+// monitor only (no pair twice, reverse = inverse of forward, everything valid).
+func (r *run) stress(seed int64, g, n int) string {
+	var anomalies int64
+	var wg sync.WaitGroup
+	for w := 0; w < g; w++ {
+		wg.Add(1)
+		go func(w int) {
+			defer wg.Done()
+			rr := rand.New(rand.NewSource(seed + int64(w)))
+			for j := 0; j < n; j++ {
+				id := fmt.Sprintf("s%d", 1+rr.Intn(10))
+				p := qinq.VLANPair{STag: uint16(100 + rr.Intn(3)), CTag: uint16(10 + rr.Intn(4))}
+				switch rr.Intn(6) {
+				case 0, 1, 2:
+					_ = r.m.Register(p, id)
+				case 3:
+					r.m.Unregister(p)
+				case 4:
+					r.m.UnregisterSubscriber(id)
+				case 5:
+					if got, ok := r.m.GetSubscriber(p); ok && got == "" {
+						atomic.AddInt64(&anomalies, 1)
+					}
+					r.m.GetVLAN(id)
+				}
+			}
+		}(w)
+	}
+	wg.Wait()
+	var fwd, rev []string
+	for k := 1; k <= 10; k++ {
+		if v, ok := r.m.GetVLAN(fmt.Sprintf("s%d", k)); ok {
+			fwd = append(fwd, fmt.Sprintf("s%d=%d.%d", k, v.STag, v.CTag))
+		}
+	}
+	for s := 99; s <= 103; s++ {
+		for c := 9; c <= 14; c++ {
+			if id, ok := r.m.GetSubscriber(qinq.VLANPair{STag: uint16(s), CTag: uint16(c)}); ok {
+				rev = append(rev, fmt.Sprintf("%d.%d=%s", s, c, id))
+			}
+		}
+	}
+	j := func(xs []string) string {
+		if len(xs) == 0 {
+			return "-"
+		}
+		return strings.Join(xs, ",")
+	}
+	return fmt.Sprintf("anomalies %d fwd %s rev %s total %d", anomalies, j(fwd), j(rev), r.m.Stats().TotalMappings)
 }
 
 // Comp is the hx.Component of this package (hosted by cmd/qinq and by the all-in-one cmd/c20).
